@@ -478,6 +478,9 @@ func runC09(p *core.Prog, r *core.Report) {
 		r.Check(ok, "C09-R2", "a flag mentioned on the command line is always applied (in "+fnName(fn)+")", p.FuncPos(fn), "no path from `ArgValue != nil` moves on without Set(*ArgValue)", "a path skips Set although the command line mentions the flag (e.g. text equal to the cached default): the JSON or environment value survives a higher-priority source")
 	}
 
+	// an explicit empty command-line value is a value (it must win over env / file / default like any other)
+	inlineValueRule(p, r, c, "C09-R2")
+
 	// defaults only from NewFlagSet
 	for _, fn := range c.Fns {
 		sx.Instrs(fn, func(in ssa.Instruction) {
